@@ -33,64 +33,139 @@ def pkg_of(case):
     return PKG[case["kind"]]
 
 
+def go_strip(src):
+    """Go source with comments removed and string / rune literals blanked (same length is not kept)."""
+    out, i, n = [], 0, len(src)
+    while i < n:
+        c = src[i]
+        if src.startswith("//", i):
+            j = src.find("\n", i)
+            i = n if j < 0 else j
+        elif src.startswith("/*", i):
+            j = src.find("*/", i + 2)
+            i = n if j < 0 else j + 2
+            out.append(" ")
+        elif c == "`":
+            j = src.find("`", i + 1)
+            i = n if j < 0 else j + 1
+            out.append("``")
+        elif c in "\"'":
+            j = i + 1
+            while j < n and src[j] != c:
+                j += 2 if src[j] == "\\" else 1
+            i = j + 1
+            out.append(c + c)
+        else:
+            out.append(c)
+            i += 1
+    return "".join(out)
+
+
+def go_func(src, name, recv_type=None):
+    """(receiver variable, parameter text, body) of the top-level function / method `name` of comment-free
+    source, whatever its receiver name, signature and layout; None when absent."""
+    for m in re.finditer(r"^func\s*(?:\(\s*(\w+)\s+\*?\s*(\w+)\s*\)\s*)?%s\s*\(" % re.escape(name), src, re.M):
+        if recv_type and m.group(2) != recv_type:
+            continue
+        i, depth = m.end(), 1
+        while i < len(src) and depth:
+            depth += {"(": 1, ")": -1}.get(src[i], 0)
+            i += 1
+        params = src[m.end():i - 1]
+        j, depth = i, 0                                  # results may be parenthesised; the body starts at the first { outside
+        while j < len(src) and not (src[j] == "{" and depth == 0):
+            depth += {"(": 1, ")": -1}.get(src[j], 0)
+            j += 1
+        k, depth = j + 1, 1
+        while k < len(src) and depth:
+            depth += {"{": 1, "}": -1}.get(src[k], 0)
+            k += 1
+        body = src[j + 1:k - 1]
+        recv = m.group(1)
+        if recv and recv != "c":
+            # the receiver under one name (a local called c would be captured: none of the functions read here has one
+            # unless it IS the cluster)
+            body = re.sub(r"\b%s\b" % re.escape(recv), "c", body)
+        return recv, params, body
+    return None
+
+
 def regen_constants():
-    """subsetSize of zrpc/resolver/internal/resolver.go -> coq/gen/C13Consts.v (fails loudly)."""
-    src = open(os.path.join(vlib.REPO, "zrpc/resolver/internal/resolver.go")).read()
+    """subsetSize of zrpc/resolver/internal/resolver.go -> coq/gen/C13Consts.v (fails loudly).  The shape flags are read
+    off comment-free source by function NAME (receiver names, signatures, result lists, local names of the listener /
+    watcher / key variables, layout and comments are free)."""
+    src = go_strip(open(os.path.join(vlib.REPO, "zrpc/resolver/internal/resolver.go")).read())
     m = re.search(r"^\s*subsetSize\s*(?:int\w*\s*)?=\s*([^\n/]+)", src, re.M)
     if not m:
-        raise RuntimeError("C13 constants translator: subsetSize not found in resolver.go")
+        # moved into another file of the package
+        for fn in sorted(os.listdir(os.path.join(vlib.REPO, "zrpc/resolver/internal"))):
+            if fn.endswith(".go") and not fn.endswith("_test.go"):
+                m = re.search(r"^\s*(?:const\s+)?subsetSize\s*(?:int\w*\s*)?=\s*([^\n/]+)",
+                              go_strip(open(os.path.join(vlib.REPO, "zrpc/resolver/internal", fn)).read()), re.M)
+                if m:
+                    break
+    if not m:
+        raise RuntimeError("C13 constants translator: subsetSize not found in zrpc/resolver/internal")
     expr = m.group(1).strip()
     if not re.fullmatch(r"[0-9+\-*/()<\s]+", expr):
         raise RuntimeError("C13 constants translator: subsetSize is not an integer constant expression: %r" % expr)
     val = eval(expr.replace("/", "//"), {"__builtins__": {}})
     # does EventHandler.OnAdd union the object's addresses into the set (pinned code) or replace the set?
-    ksrc = open(os.path.join(vlib.REPO, "zrpc/resolver/internal/kube/eventhandler.go")).read()
-    m = re.search(r"func \(h \*EventHandler\) OnAdd\(.*?\n}\n", ksrc, re.S)
-    if not m:
+    ksrc = go_strip(open(os.path.join(vlib.REPO, "zrpc/resolver/internal/kube/eventhandler.go")).read())
+    f = go_func(ksrc, "OnAdd", "EventHandler")
+    if not f:
         raise RuntimeError("C13 constants translator: EventHandler.OnAdd not found in eventhandler.go")
-    body = m.group(0)
-    unions = "h.endpoints[point.IP] = lang.Placeholder" in body and "h.Update(" not in body
-    replaces = "h.Update(endpoints)" in body and "h.endpoints[" not in body
+    body = re.sub(r"\bc\b", "h", f[2]) if f[0] else f[2]
+    unions = bool(re.search(r"h\.endpoints\[[^\]]+\]\s*=", body)) and "h.Update(" not in body
+    replaces = bool(re.search(r"h\.Update\(\s*\w+\s*\)", body)) and "h.endpoints[" not in body
     if unions == replaces:
         raise RuntimeError("C13 constants translator: shape of EventHandler.OnAdd not recognised")
     # does cluster.reload wait for the previous watch goroutines while it holds cluster.lock (finding
     # C13/reload-waits-under-lock) or after releasing it (pending/C13-reload-deadlock.diff)?
-    rsrc = open(os.path.join(vlib.REPO, "core/discov/internal/registry.go")).read()
-    m = re.search(r"func \(c \*cluster\) reload\(.*?\n}\n", rsrc, re.S)
-    if not m:
+    rsrc = go_strip(open(os.path.join(vlib.REPO, "core/discov/internal/registry.go")).read())
+    f = go_func(rsrc, "reload", "cluster")
+    if not f:
         raise RuntimeError("C13 constants translator: cluster.reload not found in registry.go")
-    rb = m.group(0)
-    il, iw, iu = rb.find("c.lock.Lock()"), rb.find(".Wait()"), rb.find("c.lock.Unlock()")
+    rb = f[2]
+    il, iw = rb.find("c.lock.Lock()"), rb.find(".Wait()")
+    deferred = re.search(r"defer\s+c\.lock\.Unlock\(\)", rb)
+    iu = len(rb) if deferred else rb.find("c.lock.Unlock()")
     if min(il, iw, iu) < 0:
         raise RuntimeError("C13 constants translator: shape of cluster.reload not recognised")
     reload_outside = not (il < iw < iu)
     # is the done channel bound to the watch generation (watchStream gets it as a parameter) or re-read from
     # the field c.done on every iteration (finding C13/reload-during-load-orphans-watchers)?
-    m = re.search(r"func \(c \*cluster\) watchStream\((.*?)\) error \{(.*?)\n}\n", rsrc, re.S)
-    if not m:
+    f = go_func(rsrc, "watchStream", "cluster")
+    if not f:
         raise RuntimeError("C13 constants translator: cluster.watchStream not found in registry.go")
-    reads_field = "<-c.done" in m.group(2)
-    has_param = "done" in m.group(1) and "<-done" in m.group(2)
+    reads_field = bool(re.search(r"<-\s*c\.done\b", f[2]))
+    chans = [x for g in re.findall(r"((?:\w+\s*,\s*)*\w+)\s+<-\s*chan\b", f[1]) for x in re.split(r"\s*,\s*", g)]
+    has_param = any(re.search(r"<-\s*%s\b" % re.escape(x), f[2]) for x in chans)
     if reads_field == has_param:
         raise RuntimeError("C13 constants translator: shape of cluster.watchStream not recognised")
     # does setupWatch create a watcher when the key has none (left over from a watch goroutine that outlived
     # Unmonitor: finding C13/unmonitor-during-load-leaves-zombie-watcher) or stop?
-    m = re.search(r"func \(c \*cluster\) setupWatch\(.*?\n}\n", rsrc, re.S)
-    if not m:
+    f = go_func(rsrc, "setupWatch", "cluster")
+    if not f:
         raise RuntimeError("C13 constants translator: cluster.setupWatch not found in registry.go")
-    setup_creates = "newWatchValue()" in m.group(0)
+    setup_creates = "newWatchValue()" in f[2] or bool(re.search(r"&\s*watchValue\s*\{", f[2]))
     # Registry.Monitor on a watched key: are the known values replayed to the joiner with the cluster lock held
     # (a join is atomic w.r.t. the dispatch of events) or after releasing it (getCurrent: finding
     # C13/join-replay-overtakes-event)?
-    m = re.search(r"func \(r \*Registry\) Monitor\(.*?\n}\n", rsrc, re.S)
-    if not m:
+    f = go_func(rsrc, "Monitor", "Registry")
+    if not f:
         raise RuntimeError("C13 constants translator: Registry.Monitor not found in registry.go")
-    mb = m.group(0)
-    join_atomic = "getCurrent(" not in mb and ".join(" not in mb and "l.OnAdd(" in mb and mb.find("l.OnAdd(") < mb.find("c.lock.Unlock()")
+    mb = f[2]
+    lm = re.search(r"(\w+)\s+UpdateListener\b", f[1])
+    lname = lm.group(1) if lm else "l"
+    onadd = re.search(r"\b%s\.OnAdd\(" % re.escape(lname), mb)
+    unlock = re.search(r"\b\w+\.lock\.Unlock\(\)", mb)
+    join_atomic = ("getCurrent(" not in mb and ".join(" not in mb and bool(onadd) and bool(unlock) and onadd.start() < unlock.start())
     # the KNOWN finding C13-join-replay-overtakes-event is about exactly this shape: attach under the lock, then
     # replay getCurrent() - any other shape of Monitor is judged strictly
-    ia, ig = mb.find("watcher.listeners = append(watcher.listeners, l)"), mb.find("c.getCurrent(wkey)")
-    join_head = 0 <= ia < mb.find("c.lock.Unlock()") < ig and ".join(" not in mb
+    att = re.search(r"(\w+)\.listeners\s*=\s*append\(\s*\1\.listeners\s*,\s*%s\s*\)" % re.escape(lname), mb)
+    cur = re.search(r"\b\w+\.getCurrent\(", mb)
+    join_head = bool(att and unlock and cur) and att.start() < unlock.start() < cur.start() and ".join(" not in mb
     regen_constants.flags = {"reload_outside": reload_outside, "done_bound": has_param, "setup_creates": setup_creates,
                              "join_atomic": join_atomic, "join_head": join_head}
     text = "\n".join(["(* GENERATED by tools/props/c13.py from zrpc/resolver/internal/resolver.go,",
@@ -684,12 +759,30 @@ class C13(Property):
                 ["batch", [["put", K(1), V(2)], ["put", K(2), V(2)], ["put", K(1), V(3)], ["del", K(2), ""]]], ["batch", []]]},
             # seeded regression 1: a key moves to a value that is already served (snapshot cache)
             {"kind": "container", "excl": False, "ops": [["add", K(1), V(1)], ["add", K(2), V(2)], ["add", K(1), V(2)]]},
+            # seeded regression 2 (resolver remembers published addresses): a same-size swap v1 -> v2, then the given-up
+            # address comes back under another key; delete + put forming the swap; shrink and regrow
+            {"kind": "resolver", "pre": [["put", K(0), V(0)], ["put", K(1), V(1)]],
+             "ops": [["put", K(1), V(2)], ["put", K(2), V(1)], ["del", K(2)], ["del", K(1)], ["put", K(3), V(3)],
+                     ["put", K(1), V(2)], ["put", K(2), V(1)], ["put", K(0), V(1)], ["put", K(4), V(0)],
+                     ["reload", [[K(0), V(3)], [K(1), V(0)], [K(2), V(2)]]], ["put", K(5), V(1)]]},
+            # seeded regression 3 (identical re-put swallowed): for an exclusive subscriber the ORDER of registrations is
+            # state - put k1=v; put k2=v; put k1=v again; delete k2 leaves v registered by k1 (watch events and one batch)
+            {"kind": "discov", "xs": [True, False, True],
+             "ops": [["put", K(1), V(1)], ["put", K(2), V(1)], ["put", K(1), V(1)], ["del", K(2)],
+                     ["batch", [["put", K(3), V(2)], ["put", K(4), V(2)], ["put", K(3), V(2)]]], ["del", K(4)],
+                     ["put", K(5), V(1)], ["reload", [[K(1), V(1)], [K(5), V(1)], [K(3), V(2)]]], ["put", K(1), V(1)], ["del", K(5)]]},
             # the public API on the real cluster (fake etcd): Exclusive() / not, a second key takes a value over and goes away
             {"kind": "cluster", "watchers": [{"key": "svc", "exact": False}, {"key": "svc/k1", "exact": True}], "base": 1, "eps": 1,
              "ops": [["spy", 0], ["put", "svc/k1", "v1"], ["sub", 0, 0, "api", True], ["sub", 1, 0, "api", False],
                      ["spy", 1], ["sub", 2, 1, "api", True], ["put", "svc/k2", "v1"], ["del", "svc/k2"], ["put", "svc/k1", "v2"],
                      ["closewatch"], ["pause"], ["put", "svc/k3", "v2"], ["del", "svc/k1"], ["compact"], ["resume"], ["reconnect"],
                      ["unsub", 0], ["unsub", 1], ["unsub", 2], ["unspy", 0], ["unspy", 1], ["spy", 0], ["sub", 3, 0, "api", False]]},
+            # the same re-registration history through the public API on the real cluster: an identical re-put makes
+            # its key the most recent registrant of the value again
+            {"kind": "cluster", "base": 1, "eps": 1, "watchers": [{"key": "svc", "exact": False}],
+             "ops": [["spy", 0], ["sub", 0, 0, "api", True], ["sub", 1, 0, "rec", True], ["sub", 2, 0, "api", False],
+                     ["put", "svc/k1", "v1"], ["put", "svc/k2", "v1"], ["put", "svc/k1", "v1"], ["del", "svc/k2"],
+                     ["put", "svc/k3", "v1"], ["pause"], ["put", "svc/k1", "v1"], ["resume"], ["del", "svc/k3"]]},
             # the listener set changes WHILE a change is dispatched: closed from inside its own callback / from another
             # goroutine while the callback is held / a subscriber created from inside a callback; watch event and reload diff
             {"kind": "cluster", "base": 1, "eps": 1, "watchers": [{"key": "svc", "exact": False}],
@@ -763,6 +856,18 @@ class C13(Property):
                 {"op": "other_add"}, {"op": "other_delete"}, {"op": "other_update_old", "obj": {"rv": "4", "subsets": [["5"]]}},
                 {"op": "other_update_new", "obj": {"rv": "3", "subsets": [["4"]]}},
                 {"op": "tombstone", "obj": {"rv": "3", "subsets": [["4"]]}}]},
+            # seeded regression 7 (address ENTRIES counted instead of distinct IPs): the same IP in several subsets / twice
+            # in one subset, the update shrinks the set and the number of entries equals the size of the published set
+            {"kind": "kube", "ops": [
+                {"op": "update", "obj": {"rv": "1", "subsets": [["1", "2", "3", "4"]]}},
+                {"op": "onupdate", "old": {"rv": "1", "subsets": [["1", "2", "3", "4"]]}, "obj": {"rv": "2", "subsets": [["1", "2"], ["1", "2"]]}},
+                {"op": "onupdate", "old": {"rv": "2", "subsets": [["1", "2"], ["1", "2"]]}, "obj": {"rv": "3", "subsets": [["1"], ["1"]]}},
+                {"op": "update", "obj": {"rv": "4", "subsets": [["5", "6", "7"]]}},
+                {"op": "add", "obj": {"rv": "5", "subsets": [["6", "6", "6"]]}},
+                {"op": "update", "obj": {"rv": "6", "subsets": [["6", "7"], ["8"]]}},
+                {"op": "onupdate", "old": {"rv": "6", "subsets": [["6", "7"], ["8"]]}, "obj": {"rv": "7", "subsets": [["8", "7"], ["7"]]}},
+                {"op": "delete", "obj": {"rv": "7", "subsets": [["8", "7"], ["7"]]}},
+                {"op": "add", "obj": {"rv": "8", "subsets": [[], ["9", "9"]]}}]},
         ]
 
     # ------------------------------------------------------------------ generators
